@@ -151,21 +151,25 @@ Section Rec.
     {| r_id := r_id r; r_tags := r_tags r; r_details := r_details r; r_status := r_status r;
        r_first := r_first r; r_last := None |}.
 
+  (* one status() call of _StreamToTestRecord: the new self._inprogress and the records handed to on_test *)
+  Definition step (tbl : list (key * rcd)) (e : event) : list (key * rcd) * list rcd :=
+    match e_id e with
+    | None => (tbl, [])                                                      (* _ensure_key returns None *)
+    | Some i =>
+        let k := (i, e_route e) in
+        let cur := match get k tbl with Some c => c | None => create i (e_ts e) end in
+        let cur' := upd cur e in
+        if final (e_status e) then (del k tbl, [cur']) else (put k cur' tbl, [])
+    end.
+  (* stopTestRun: popitem() until empty, last inserted first *)
+  Definition flush (tbl : list (key * rcd)) : list rcd := map (fun kr => hung (snd kr)) (rev tbl).
+
   (* _StreamToTestRecord between startTestRun and (when [stop]) stopTestRun: the
      records handed to on_test, in call order.  tbl is self._inprogress. *)
   Fixpoint consume_from (stop : bool) (tbl : list (key * rcd)) (evs : list event) : list rcd :=
     match evs with
-    | [] => if stop then map (fun kr => hung (snd kr)) (rev tbl) else []     (* popitem(): last inserted first *)
-    | e :: r =>
-        match e_id e with
-        | None => consume_from stop tbl r                                    (* _ensure_key returns None *)
-        | Some i =>
-            let k := (i, e_route e) in
-            let cur := match get k tbl with Some c => c | None => create i (e_ts e) end in
-            let cur' := upd cur e in
-            if final (e_status e) then cur' :: consume_from stop (del k tbl) r
-            else consume_from stop (put k cur' tbl) r
-        end
+    | [] => if stop then flush tbl else []
+    | e :: r => snd (step tbl e) ++ consume_from stop (fst (step tbl e)) r
     end.
   Definition consume (evs : list event) : list rcd := consume_from true [] evs.
 
@@ -239,6 +243,7 @@ Arguments r_id {CT}. Arguments r_tags {CT}. Arguments r_details {CT}. Arguments 
 Arguments r_first {CT}. Arguments r_last {CT}.
 Arguments create {CT}. Arguments hung {CT}.
 Arguments add_bytes {M CT}. Arguments upd {M CT}.
+Arguments step {M CT}. Arguments flush {CT}.
 Arguments consume_from {M CT}. Arguments consume {M CT}.
 Arguments gather {CT}. Arguments summarize {M CT}.
 Arguments LStartRun {CT}. Arguments LStopRun {CT}. Arguments LTime {CT}. Arguments LTags {CT}.
